@@ -327,6 +327,27 @@ func (s *spanScreen) writeString(text string, width int, merge bool, mode TextRe
 	if width < 1 {
 		width = 1
 	}
+	// The reader sizes runs to the rest of the row, but it does so before it
+	// blocks for input: the screen may have been resized since, and with
+	// autowrap off runs are not limited at all. Write what fits, piece by piece.
+	state := -1
+	for s.cursorPos.X+width > s.size.X {
+		n, w, newState := clustersFitting(text, s.size.X-s.cursorPos.X, state, mode)
+		if n <= 0 || n >= len(text) {
+			break
+		}
+		s.writeRun(text[:n], w)
+		text, width, state = text[n:], width-w, newState
+		if width < 1 {
+			width = 1
+		}
+	}
+	s.writeRun(text, width)
+}
+
+// writeRun writes text, which occupies width cells, at the cursor; text that
+// does not fit on the rest of the row wraps or is pinned to the right edge.
+func (s *spanScreen) writeRun(text string, width int) {
 	if width > s.size.X {
 		width = s.size.X
 	}
@@ -340,6 +361,30 @@ func (s *spanScreen) writeString(text string, width int, merge bool, mode TextRe
 	sp := Span{Style: s.style, Text: text, Width: width}
 	s.rawWriteSpan(s.cursorPos.X, s.cursorPos.Y, sp, CRText)
 	s.moveCursor(width, 0, true, true)
+}
+
+// clustersFitting returns the byte length and cell width of the longest prefix
+// of whole clusters of text that fits in avail cells; it always takes at least
+// one cluster.
+func clustersFitting(text string, avail int, state int, mode TextReadMode) (int, int, int) {
+	buf := []byte(text)
+	idx, width := 0, 0
+	for idx < len(buf) {
+		_, consumed, w, newState, ok := stepTextCluster(buf[idx:], state, mode)
+		if !ok || consumed <= 0 {
+			break
+		}
+		if w < 0 {
+			w = 0
+		}
+		if idx > 0 && width+w > avail {
+			break
+		}
+		idx += consumed
+		width += w
+		state = newState
+	}
+	return idx, width, state
 }
 
 func (s *spanScreen) insertRunes(b []rune) {
